@@ -75,6 +75,12 @@ theorem scanUntil_some {e r : Bytes} {k : Nat} (h : scanUntil e r = some k) :
         rw [this]
         simp [c']
 
+theorem isBlockCommentStart_len {rest : Bytes} (h : isBlockCommentStart rest = true) : 2 ≤ rest.length := by
+  match rest with
+  | [] => simp [isBlockCommentStart] at h
+  | [_] => simp [isBlockCommentStart] at h
+  | _ :: _ :: _ => simp
+
 theorem skipComment_ok_le {rest : Bytes} {p0 : Nat} {np : Bool} {n : Nat} {he : Bool}
     (h : skipComment rest p0 np = .ok (n, he)) : n ≤ rest.length := by
   unfold skipComment at h
@@ -84,8 +90,13 @@ theorem skipComment_ok_le {rest : Bytes} {p0 : Nat} {np : Bool} {n : Nat} {he : 
     | none => simp
     | some k => simpa using (scanUntil_some hs).2.1
   · split at h
-    · split at h
-      · rename_i hs; cases h; exact (scanUntil_some hs).2.1
+    · rename_i hb
+      have h2 := isBlockCommentStart_len hb
+      split at h
+      · rename_i hs; cases h
+        have := (scanUntil_some hs).2.1
+        simp only [List.length_drop] at this
+        omega
       · split at h
         · cases h; simp
         · cases h
